@@ -28,6 +28,12 @@ fn rec_perm(state: &mut [BaseElement; STATE_WIDTH]) {
         PERM_CALLS += 1;
     }
 }
+/// stands for f64 `BaseElement::new` in the byte/integer absorbing harnesses: an injective tag of
+/// the argument, so that "chunk j is absorbed as new(le64(chunk))" is checked without asking SAT to
+/// multiply (the contract of `new` itself is the Verus unit f64_core)
+fn stub_new(value: u64) -> BaseElement {
+    BaseElement::from_mont(value.rotate_left(17) ^ 0x5bd1_e995_9e37_79b9)
+}
 fn reset() {
     unsafe {
         PERM_CALLS = 0;
@@ -61,6 +67,7 @@ fn same(a: &[BaseElement; STATE_WIDTH], b: &[BaseElement; STATE_WIDTH]) -> bool 
 #[cfg_attr(kani, kani::proof)]
 #[cfg_attr(kani, kani::unwind(14))]
 #[cfg_attr(kani, kani::stub(Rp64_256::apply_permutation, rec_perm))]
+#[cfg_attr(kani, kani::stub(winter_math::fields::f64::BaseElement::new, stub_new))]
 pub fn k_c16_rp64_merge_rules() {
     let (a, b) = (any_digest(), any_digest());
     reset();
@@ -127,6 +134,7 @@ fn hash_elements_rule<const N: usize>() {
 #[cfg_attr(kani, kani::proof)]
 #[cfg_attr(kani, kani::unwind(14))]
 #[cfg_attr(kani, kani::stub(Rp64_256::apply_permutation, rec_perm))]
+#[cfg_attr(kani, kani::stub(winter_math::fields::f64::BaseElement::new, stub_new))]
 pub fn k_c16_rp64_hash_elements() {
     hash_elements_rule::<0>();
     hash_elements_rule::<1>();
@@ -169,6 +177,7 @@ fn hash_bytes_rule<const L: usize>() {
 #[cfg_attr(kani, kani::proof)]
 #[cfg_attr(kani, kani::unwind(14))]
 #[cfg_attr(kani, kani::stub(Rp64_256::apply_permutation, rec_perm))]
+#[cfg_attr(kani, kani::stub(winter_math::fields::f64::BaseElement::new, stub_new))]
 pub fn k_c16_rp64_hash_bytes_one_block() {
     hash_bytes_rule::<0>();
     hash_bytes_rule::<1>();
@@ -182,6 +191,7 @@ pub fn k_c16_rp64_hash_bytes_one_block() {
 #[cfg_attr(kani, kani::proof)]
 #[cfg_attr(kani, kani::unwind(14))]
 #[cfg_attr(kani, kani::stub(Rp64_256::apply_permutation, rec_perm))]
+#[cfg_attr(kani, kani::stub(winter_math::fields::f64::BaseElement::new, stub_new))]
 pub fn k_c16_rp64_hash_bytes_two_blocks() {
     hash_bytes_rule::<56>();
     hash_bytes_rule::<57>();
@@ -193,6 +203,7 @@ pub fn k_c16_rp64_hash_bytes_two_blocks() {
 #[cfg_attr(kani, kani::proof)]
 #[cfg_attr(kani, kani::unwind(14))]
 #[cfg_attr(kani, kani::stub(Rp64_256::apply_permutation, rec_perm))]
+#[cfg_attr(kani, kani::stub(winter_math::fields::f64::BaseElement::new, stub_new))]
 pub fn k_c17_rp64_length_separation() {
     // x and x || 0 (same chunk): the padding byte moves
     let x: [u8; 6] = vs::any_bytes();
